@@ -238,7 +238,7 @@ MC_FAMILIES = {  # cfg file, (quick depth, thorough depth)
     "valset": ("MC_ValSet.cfg", (4, 6)),          # three validators, two active: set rotation in the staking end-blocker
     "capacity": ("MC_Capacity.cfg", (5, 7)),      # capacity sizes around the rounding boundaries, holder of a shard and a free provider, rewards in between
     "debtreward": ("MC_Debt.cfg", (6, 7)),       # the debt family in a world WITH a block reward (6 per block): claims smaller than, equal to and larger than the debt
-    "rewardage": ("MC_Reward.cfg", (6, 7)),      # the reward family from a genesis 5000 coins before the subsidy's first halving
+    "rewardage": ("MC_Reward.cfg", (6, 7)),      # the reward family from a genesis two block rewards before the subsidy's first halving (the second lands exactly on it)
 }
 MC_FAMILY_CFG = {"accounts": 8, "dids": 2, "validators": 2, "balance": 10000000, "blockReward": 840}
 
@@ -277,7 +277,7 @@ def family_gcfg(fam):
     """The world (harness configuration) an exhaustive family starts from."""
     gcfg = MC_CFG if fam in ("timeout", "sponsor", "migrate", "version", "debt", "stagger") else MC_FAMILY_CFG   # long time jumps: no block reward there
     if fam == "rewardage":
-        gcfg = dict(MC_FAMILY_CFG, blockReward=2520, rewardBase="199999999995000")
+        gcfg = dict(MC_FAMILY_CFG, blockReward=2520, rewardBase="199999999994960")   # two block rewards before the halving point: the second lands exactly on it
     if fam == "debtreward":
         gcfg = dict(MC_CFG, blockReward=6)                 # small: the accumulator stays within 32 bits over the family's time jumps
     if fam == "fault":
@@ -684,6 +684,8 @@ def match_known(v, known):
         if "fields" in sig:
             if not v.get("fields") or not set(v["fields"]) <= set(sig["fields"]):
                 continue
+        if "kind" in sig and v.get("kind") != sig["kind"]:     # the kind of the failing step
+            continue
         if "ev" in sig:
             ev = v.get("ev") or {}
             if any(ev.get(f) != val for f, val in sig["ev"].items()):
